@@ -151,7 +151,7 @@ func init() {
 		return &ProcCheck{Prop: "C13", Scenarios: "ReaderScenarios", MaxCrashes: 1,
 			IdealInvs:    []string{"ReaderOK", "NeverBricked"},
 			Only:         []string{"C13_reader"},
-			MaxRunsQuick: 1500}
+			MaxRunsQuick: 3000}
 	}
 	registry["C03"] = func() Check {
 		return &ProcCheck{Prop: "C03", Scenarios: "CrashScenarios", MaxCrashes: 1,
